@@ -9,6 +9,11 @@
   (`run init h = .ok s`; the rejected ones use a guard that does not exist, reuse the id of a live
   guard, or reset/drop a borrowed pool — none of which safe Rust can express).
 
+  Reading of the property text fixed here: "live guards" = guards handed out and not yet DROPPED; a guard
+  passed to `mem::forget` is never dropped, its arena never returns to the pool (it is leaked, as the
+  SAFETY comment of `Deref for BumpPoolGuard` says), and it keeps counting as live in `peakLive`.  `reset`,
+  `reset_to_start` and drop of the pool reach every arena except those leaked ones.
+
   What is NOT provable in this model and is therefore TRUSTED (claim level: partial):
     * that the critical sections really are atomic — `std::sync::Mutex` (lock/unlock, poisoning is
       ignored by `PoisonError::into_inner`), and the Rust rule that the `MutexGuard` temporary of
@@ -138,9 +143,15 @@ theorem idle_plus_live {h : List Step} {s : State} (hr : run init h = .ok s) :
     s.idle.length + (s.owned.length + s.leaked.length) = s.created :=
   (inv_run inv_init hr).length
 
-/-- non-vacuity + tightness: two guards live at once, then five more gets one at a time: two arenas, peak 2 -/
+/-- non-vacuity + tightness: two guards live at once, then two more gets one at a time (the second with a
+    base allocator that would refuse a new arena — it is not asked): two arenas, peak 2 -/
 example : (runLog init [.get 0 true, .get 1 true, .put 0, .put 1, .get 2 true, .put 2, .get 3 false, .put 3]).toOption.map
     (fun r => (r.1.created, peakLive r.2)) = some (2, 2) := by decide
+
+/-- the reading of "live" matters for `mem::forget`: a forgotten guard is never dropped, its arena never
+    comes back, so it keeps counting as live (otherwise one guard at a time could create two arenas) -/
+example : (runLog init [.get 0 true, .forget 0, .get 1 true]).toOption.map
+    (fun r => (r.1.created, peakLive r.2, r.1.owned.length)) = some (2, 2, 1) := by decide
 
 /-! ## (3) Stability of what was allocated through a guard -/
 
